@@ -69,7 +69,13 @@ import (
 //
 // Calibration on the unchanged tree (C12_CALIBRATE=1 turns the tolerance checks into
 // measurements of ratio = (|impl-exact|-1) / (M*(expo+xerr+round)) and prints the maxima):
-// CALIBRATION-RESULTS
+// 4 seeds x 60 000 cases per function (thorough generator), largest observed ratio per
+// function: PurchaseReturn 0.86, PurchaseAmount 0.96, SaleReturn 0.96, SaleAmount 0.86
+// (0.85 inside the cancellation regime once the known finding is set aside), round trip
+// 0.45; no monotonicity dip above the one unit of truncation. All maxima are in the
+// float64-exponent term (crr 56 and 97, whose crr/100 is furthest from a float64). The
+// model therefore holds with K = 1 on everything seen; K = 4 leaves a factor 4 against
+// false alarms while a relative perturbation of 2^-50 of a result is still detected.
 const c12K = 4
 
 var (
@@ -445,35 +451,33 @@ func c12Sample(c c12Case, res *big.Int, extra map[string]interface{}) func() int
 // ---------------------------------------------------------------------------------
 // (a) accuracy, (b) sign / bounds / monotonicity – one test per function
 
-// Known findings on the unchanged tree (excluded by construction and counted, each with a
-// deterministic reproducer TestC12_KF_*):
+// Findings of this check:
 //
-//   - c12-return-above-reserve: CalculateSaleReturn multiplies by the reserve rounded to 100
-//     bits. For a reserve above 2^100 (1.27e30 pip) that is not representable and an amount
-//     so close to the supply that (1-a/s)^(100/crr) < 2^-100, the result is the rounded
-//     reserve, up to reserve*2^-100 (at most 512 pip) MORE than the reserve.
-//   - c12-sale-amount-cancellation: CalculateSaleAmount computes reserve-wanted from operands
-//     rounded to 100 bits. When wanted is within reserve*2^-97 of the reserve (possible for
-//     reserve > 1.6e29 pip; CalculateSaleAmountAndCheck admits wanted <= reserve), x =
-//     (reserve-wanted)/reserve is lost completely and the result is off by up to
-//     (2^-97)^(crr/100) * supply (0.12% of the supply at crr 10) instead of ~2^-98 * supply.
+//   - fixed (c12-return-above-reserve): CalculateSaleReturn multiplied by the reserve rounded
+//     to 100 bits. For a reserve above 2^100 (1.27e30 pip) that is not representable and an
+//     amount so close to the supply that (1-a/s)^(100/crr) < 2^-100, the result was the
+//     rounded reserve, up to reserve*2^-100 (at most 512 pip) MORE than the reserve. Repaired
+//     in /repo (result clamped to the reserve); TestC12_Reg_ReturnAboveReserve replays the
+//     minimal input and the generated check has no exclusion for it.
+//   - known (c12-sale-amount-cancellation, excluded by construction and counted, reproduced
+//     deterministically by TestC12_KF_SaleAmountCancellation): CalculateSaleAmount computes
+//     reserve-wanted from operands rounded to 100 bits. When wanted is within reserve*2^-97
+//     of the reserve (possible for reserve > 1.6e29 pip; CalculateSaleAmountAndCheck admits
+//     wanted <= reserve), x = (reserve-wanted)/reserve is lost completely and the result is
+//     off by up to (2^-97)^(crr/100) * supply (0.12% of the supply at crr 10) instead of
+//     ~2^-98 * supply.
 const (
 	c12SigAboveReserve = "c12-return-above-reserve"
 	c12SigCancellation = "c12-sale-amount-cancellation"
 )
 
-// c12ReturnBound checks SaleReturn <= reserve, up to the known finding.
+// c12ReturnBound checks SaleReturn <= reserve.
 func c12ReturnBound(t *rapid.T, c c12Case, res *big.Int) {
 	if c.k != bancor.SaleReturn || res.Cmp(c.r) <= 0 {
 		return
 	}
 	over := new(big.Int).Sub(res, c.r)
-	ulp := new(big.Int).Rsh(c.r, 100)
-	if c.crr != 100 && c.r.Cmp(c12Pow2) > 0 && over.Cmp(ulp) <= 0 {
-		sim.S.Exclude(c12SigAboveReserve, 1)
-		return
-	}
-	t.Fatalf("VERIF-SIG[c12-return-above-reserve-unexplained] %s = %s exceeds the reserve by %s", c, res, over)
+	t.Fatalf("VERIF-SIG[%s] %s = %s exceeds the reserve by %s", c12SigAboveReserve, c, res, over)
 }
 
 // c12Accuracy checks exact - 1 - K*model <= impl <= exact + K*model for a float-path call
@@ -756,15 +760,15 @@ func c12Int(dec string) *big.Int {
 	return v
 }
 
-// TestC12_KF_ReturnAboveReserve reproduces the known finding c12-return-above-reserve
-// deterministically and records whether it is still present (it never fails).
-func TestC12_KF_ReturnAboveReserve(t *testing.T) {
+// TestC12_Reg_ReturnAboveReserve replays the minimal input of the repaired defect
+// c12-return-above-reserve (plain regression check, no generator involved).
+func TestC12_Reg_ReturnAboveReserve(t *testing.T) {
 	s := c12Int("630957975437538689")
 	r := new(big.Int).Sub(c12Pow10(31), c12One)
 	res, p := c12Impl(bancor.SaleReturn, s, r, 10, new(big.Int).Sub(s, c12One))
-	reproduced := p == nil && res != nil && res.Cmp(r) > 0
-	t.Logf("CalculateSaleReturn(supply=%s, reserve=%s, crr=10, amount=supply-1) = %v (panic %v) -> above the reserve: %v", s, r, res, p, reproduced)
-	sim.S.KnownFinding(c12SigAboveReserve, reproduced)
+	if p != nil || res == nil || res.Cmp(r) > 0 {
+		t.Fatalf("VERIF-SIG[%s] CalculateSaleReturn(supply=%s, reserve=%s, crr=10, amount=supply-1) = %v (panic %v): above the reserve", c12SigAboveReserve, s, r, res, p)
+	}
 }
 
 // TestC12_KF_SaleAmountCancellation reproduces the known finding
